@@ -96,8 +96,7 @@ self.key.bytes().len() <= 0x1_0000,
 self.value_offset.val % 8 == 0, self.bucket_next_offset.val % 8 == 0,
 self.offset.val <= old(file)@.bytes.len(),
 self.offset.val + self.size.val <= 0x7fff_ffff_ffff_ffff,
-key_head(self.size.val as nat, self.key.bytes(), self.value_offset.val as nat, self.bucket_next_offset.val as nat).len() <= self.size.val,
-self.key.bytes().len() <= old(file)@.chunk
+key_head(self.size.val as nat, self.key.bytes(), self.value_offset.val as nat, self.bucket_next_offset.val as nat).len() <= self.size.val
 @ensures
 okh(old(file)@, final(file)@, r), final(file).piece_mgr == old(file).piece_mgr,
 r is Ok ==> key_used_at(final(file)@.bytes, self.offset.val as int, self.size.val as nat, self.key.bytes(), self.value_offset.val as nat, self.bucket_next_offset.val as nat),
@@ -121,7 +120,7 @@ proof {
 proof { lemma_rec_write(b0, bp, o, acc, e1); acc = acc + e1; bp = file@.bytes; }
 @after-call write_key_len 1
 proof { lemma_rec_write(b0, bp, o, acc, e2); acc = acc + e2; bp = file@.bytes; }
-@after-call write_all_small 1
+@after-call write_all_small|write_all 1
 proof { lemma_rec_write(b0, bp, o, acc, self.key.bytes()); acc = acc + self.key.bytes(); bp = file@.bytes; }
 @after-call write_piece_offset 1
 proof { lemma_rec_write(b0, bp, o, acc, e4); acc = acc + e4; bp = file@.bytes; }
